@@ -293,19 +293,29 @@ def check_slice_pipeline(lib, res, b, o):
     res.add("slice:pipeline:step", ok1, "the next index is i.checked_add(<captured>) and an unrepresentable one ends the sequence (None)", b.span)
     # ---- take_while: if step > 0 { i < b } else { i > b }
     c2t, c2 = closure_of(tw["args"][1])
-    table = None
-    if c2 is not None:
-        ncap = len(c2t[2])
-        w2 = SymWalker(c2)
-        w2.init_env = lambda: {1: ("tuple", tuple(Aff.var(f"cap{k}") for k in range(ncap))), 2: Aff.var("i")}
-        try:
-            table = []
-            for p in w2.run(stop_at_loops=False):
-                v = p.leaf[1] if p.leaf[0] == "return" else None
-                table.append(([(a, t) for a, t in p.conds], v, list(p.obligations)))
-        except RuntimeError:
-            table = None
-    res.add("slice:pipeline:guard-shape", table is not None and all(isinstance(v, Cmp) and not ob for _, v, ob in table),
+    tables = {}
+
+    def guard_table(caps):
+        """The guard closure walked with its captures bound to their values on this prefix path (affine forms, or a flag
+        such as `step > 0` computed before the pipeline)."""
+        key = repr(caps)
+        if key in tables:
+            return tables[key]
+        tab = None
+        if c2 is not None and len(caps) == len(c2t[2]):
+            w2 = SymWalker(c2)
+            w2.init_env = lambda: {1: ("tuple", tuple(caps)), 2: Aff.var("i")}
+            try:
+                tab = []
+                for p_ in w2.run(stop_at_loops=False):
+                    v = p_.leaf[1] if p_.leaf[0] == "return" else None
+                    tab.append(([(a_, t_) for a_, t_ in p_.conds], v, list(p_.obligations)))
+            except RuntimeError:
+                tab = None
+        tables[key] = tab
+        return tab
+    probe = [guard_table(cap_vals(p, tw["args"][1]) or ()) for p in full]
+    res.add("slice:pipeline:guard-shape", bool(probe) and all(t_ is not None and all(isinstance(v, Cmp) and not ob for _, v, ob in t_) for t_ in probe),
             "the guard closure returns a comparison on every path and performs no checked arithmetic", b.span)
     # ---- map: array[i as usize].clone()
     c3t, c3 = closure_of(mp["args"][1])
@@ -321,9 +331,6 @@ def check_slice_pipeline(lib, res, b, o):
         capt = c3t[2]
         ok3 = ok3 and len(capt) == 1 and set(capt[0]) == {("param", 1)}
     res.add("slice:pipeline:element", ok3, "each index i contributes array[i as usize].clone(), exactly one element access", b.span)
-    if table is None or not all(isinstance(v, Cmp) for _, v, _ in table):
-        return
-
     def bounds_of(p, sgn):
         first = p.env.get(su["args"][0].get("l")) if su["args"][0].get("k") in ("copy", "move") else None
         caps1 = cap_vals(p, su["args"][1])
@@ -332,51 +339,35 @@ def check_slice_pipeline(lib, res, b, o):
             return None
         if list(caps1) != [Aff.var(step)]:
             return None
-        env = {f"cap{k}": v for k, v in enumerate(caps2)}
-        # evaluate the guard's decision for this direction symbolically: substitute the captures
-        def sub(a):
-            out = Aff.k(a.const)
-            for v, c in a.terms.items():
-                x = env.get(v, Aff.var(v))
-                if not isinstance(x, Aff):
-                    return None
-                for _ in range(abs(c)):
-                    out = out + x if c > 0 else out - x
-            return out
+        table = guard_table(caps2)
+        if table is None:
+            return None
         hits = []
         for conds, v, _ in table:
             okp = True
-            for a, t in conds:
-                if not isinstance(a, Cmp):
-                    okp = False
-                    break
-                sa, sb_ = sub(a.a), sub(a.b)
-                if sa is None or sb_ is None:
-                    okp = False
-                    break
+            for a_, t_ in conds:
                 # conditions of the guard may only test the step's sign
-                if sa == Aff.var(step) and sb_ == Aff.k(0):
-                    val = {"Gt": sgn > 0, "Ge": sgn >= 0, "Lt": sgn < 0, "Le": sgn <= 0, "Eq": sgn == 0, "Ne": sgn != 0}[a.op]
-                elif sa == Aff.k(0) and sb_ == Aff.var(step):
-                    val = {"Gt": 0 > sgn, "Ge": 0 >= sgn, "Lt": 0 < sgn, "Le": 0 <= sgn, "Eq": sgn == 0, "Ne": sgn != 0}[a.op]
+                if not (isinstance(a_, Cmp) and isinstance(a_.a, Aff) and isinstance(a_.b, Aff)):
+                    return None
+                if a_.a == Aff.var(step) and a_.b == Aff.k(0):
+                    val = {"Gt": sgn > 0, "Ge": sgn >= 0, "Lt": sgn < 0, "Le": sgn <= 0, "Eq": sgn == 0, "Ne": sgn != 0}[a_.op]
+                elif a_.a == Aff.k(0) and a_.b == Aff.var(step):
+                    val = {"Gt": 0 > sgn, "Ge": 0 >= sgn, "Lt": 0 < sgn, "Le": 0 <= sgn, "Eq": sgn == 0, "Ne": sgn != 0}[a_.op]
                 else:
                     return None
-                if val != t:
+                if val != t_:
                     okp = False
                     break
             if okp:
                 hits.append(v)
-        if len(hits) != 1:
+        if len(hits) != 1 or not isinstance(hits[0], Cmp):
             return None
         g = hits[0]
-        ga, gb = sub(g.a), sub(g.b)
-        if ga is None or gb is None:
-            return None
-        op = g.op
+        ga, gb, op = g.a, g.b, g.op
         if gb == Aff.var("i"):
             ga, gb = gb, ga
             op = {"Lt": "Gt", "Gt": "Lt", "Le": "Ge", "Ge": "Le"}.get(op, op)
-        if ga != Aff.var("i") or op not in ("Lt", "Gt"):
+        if ga != Aff.var("i") or op not in ("Lt", "Gt") or not isinstance(gb, Aff):
             return None
         return first[1], gb, op
 
